@@ -438,7 +438,10 @@ func acquire(p unsafe.Pointer, write bool, real func(), kind string) {
 		s.mu.Unlock()
 		s.park(t, func() bool {
 			st := s.ls(p)
-			return st.owner == nil && (!write || len(st.readers) == 0)
+			if write {
+				return st.owner == nil && len(st.readers) == 0
+			}
+			return st.owner == nil && (st.wwait == 0 || st.readers[t] > 0)
 		}, -3)
 	}
 }
